@@ -17,8 +17,10 @@
    trailing bytes beyond 8*(n+1) are ignored.  Unwrap does not look at KEKLabel.
 
    The wrap functions are parameters ([_with]) so that the envelope logic is stated once; the
-   instance below uses the AES-128 model and is meaningful for 16-byte KEKs only: AES-192 and
-   AES-256 (24/32-byte KEKs) are NOT modelled (they are exercised on the Go side only). *)
+   instance below uses the AES-128 model and is meaningful for 16-byte KEKs only (this is the
+   instance the join-server model of C16 uses).  KEKs of every length, i.e. AES-192 and AES-256
+   (24/32 bytes) and the key-size error, are modelled in KeyEnvelopeAny.v, which agrees with this
+   file on 16-byte KEKs (EnvelopeAnyProofs.envelope_any_128). *)
 From Coq Require Import List NArith Bool.
 From LW Require Import Base.Outcome Base.Bytes Crypto.KeyWrap.
 Import ListNotations.
